@@ -25,6 +25,8 @@ EXCL = {
     'if-unsigned': (False, 'pp:if-unsigned-arithmetic'),
     'if-stacked-unary': (False, 'pp:if-stacked-unary-operators'),
     'if-ternary-nested': (False, 'pp:if-ternary-right-associativity'),
+    'if-eq-rel-precedence': (False, 'pp:if-equality-relational-same-precedence'),
+    'if-and-or-precedence': (False, 'pp:if-logical-and-or-same-precedence'),
     'paste-operators': (False, 'pp:paste-forming-operator'),
     'stringify-apostrophe': (False, 'pp:stringify-escapes-apostrophe'),
     'stringify-multichar-space': (False, 'pp:stringify-drops-space-after-multichar-token'),
@@ -125,6 +127,7 @@ class Gen:
         for n in range(0, 3):
             self.fun['V%d_0' % n] = {'n': n, 'variadic': True, 'va_str': rng.random() < 0.5,
                                      'kinds': [rng.choice(['any', 'str', 'paste']) for _ in range(n)]}
+        self._top, self._lastop, self._binflag = None, None, False
         self.str_depth = 0                                       # >0 while generating a to-be-stringified argument
         self.numfun = {'SQ': 1, 'ADD': 2, 'MAX': 2}              # numeric function-like (fixed bodies)
         self.f = self.case.features
@@ -138,7 +141,10 @@ class Gen:
         if r < 0.35:
             return self.ident()
         if r < 0.55:
-            return self.r.choice(NUMS)
+            t = self.r.choice(NUMS)
+            if self.str_depth and not allowed('stringify-multichar-space') and ('.' in t or '+' in t or '-' in t):
+                return self.r.choice(INTS)
+            return t
         if r < 0.65:
             t = self.r.choice(STRINGS)
             if self.str_depth and ((not allowed('stringify-apostrophe') and "'" in t)
@@ -199,6 +205,9 @@ class Gen:
             if out[0] in ('++', '--'):
                 out.insert(0, 'k')
             if out[-1] in ('++', '--'):
+                out.append('k')
+        if out and not allowed('lex-shift-space-assign'):
+            if out[-1] in ('<<', '>>', '<', '>'):
                 out.append('k')
         if out and not allowed('lex-line-starting-with-lt-after-include') and out[0][:1] == '<':
             out.insert(0, 'k')
@@ -474,7 +483,32 @@ class Gen:
         return s
 
     # ------------------------------------------------------------------ #if expressions
+    REL = ('<', '>', '<=', '>=')
+    EQ = ('==', '!=')
+
     def expr(self, depth=0, nodef=False):
+        e = self._expr(depth, nodef)
+        # _top = operator at the top of e if e is an unparenthesised binary expression
+        self._top = self._lastop if self._binflag else None
+        self._binflag = False
+        return e
+
+    def _operand(self, depth, nodef, op):
+        """operand of binary `op`; parenthesised where cppcheck is known to apply a wrong precedence"""
+        e = self.expr(depth, nodef)
+        top = self._top
+        self._top = None
+        wrap = False
+        if top is not None:
+            if not allowed('if-eq-rel-precedence'):
+                wrap |= (op in self.EQ and top in self.REL) or (op in self.REL and top in self.EQ)
+            if not allowed('if-and-or-precedence'):
+                wrap |= op in ('&&', '||') and top in ('&&', '||') and top != op
+            if not wrap:
+                self.f.add('if-unparenthesised-precedence')
+        return '(' + e + ')' if wrap else e
+
+    def _expr(self, depth=0, nodef=False):
         r = self.r
         x = r.random()
         if depth >= 3 or x < 0.25:
@@ -503,9 +537,10 @@ class Gen:
             return '(' + self.expr(depth + 1, nodef) + ')'
         if x < 0.58:
             operand = self.expr_prim(depth + 1, nodef)
-            if operand.lstrip('( ')[:1] in ('!', '-', '~', '+'):
+            if not operand.isalnum() or operand in self.num or operand in self.cfg:
+                # operand is itself an operator expression or a macro that may expand to one
                 if not allowed('if-stacked-unary'):
-                    operand = r.choice(INTS + self.num)
+                    operand = r.choice(INTS + ['zz'])
                 else:
                     self.f.add('if-stacked-unary')
             return r.choice(['!', '-', '~', '+']) + operand
@@ -534,7 +569,10 @@ class Gen:
         if x < 0.87:
             return '(%s %s %s)' % (self.expr(depth + 1, nodef), r.choice(['<<', '>>']), r.choice(['0', '1', '2', '3', '5']))
         op = r.choice(['+', '-', '*', '<', '>', '<=', '>=', '==', '!=', '&', '^', '|', '&&', '||'])
-        return '%s %s %s' % (self.expr(depth + 1, nodef), op, self.expr(depth + 1, nodef))
+        a = self._operand(depth + 1, nodef, op)
+        b = self._operand(depth + 1, nodef, op)
+        self._lastop, self._binflag = op, True
+        return '%s %s %s' % (a, op, b)
 
     def expr_prim(self, depth, nodef=False):
         e = self.expr(depth, nodef)
